@@ -226,3 +226,97 @@ def accumulate():
                 if numpy.shape(got) != tuple(shape) or not numpy.allclose(got, want):
                     fails.append('accumulate(%s, %s, %s) = %s, expected %s' % (data.tolist(), [i.tolist() for i in index], shape, numpy.asarray(got).tolist(), want.tolist()))
     _report(fails, n)
+
+
+def function_coo_csr():
+    from nutils import function
+    rng = numpy.random.RandomState(2)
+    fails, n = [], 0
+    a = function.Argument('a', (2, 3))
+    val = rng.rand(2, 3)
+    for f in (a, function.diagonalize(a[0]), a * a):
+        n += 1
+        try:
+            dense = function.eval(f, arguments=dict(a=val))
+            v, *ix = function.eval(function.as_coo(f), arguments=dict(a=val))
+            s = numpy.zeros(dense.shape)
+            numpy.add.at(s, tuple(ix), v)
+            if not numpy.allclose(s, dense):
+                fails.append('as_coo: %s vs %s' % (s.tolist(), dense.tolist()))
+            v, rowptr, colidx = function.eval(function.as_csr(f), arguments=dict(a=val))
+            s = numpy.zeros(dense.shape)
+            for r in range(dense.shape[0]):
+                s[r, colidx[rowptr[r]:rowptr[r + 1]]] += v[rowptr[r]:rowptr[r + 1]]
+            if not numpy.allclose(s, dense):
+                fails.append('as_csr: %s vs %s' % (s.tolist(), dense.tolist()))
+        except Exception as e:
+            fails.append('%s: %s' % (type(e).__name__, e))
+    for bad in (a[0], function.Argument('b', (2, 2, 2))):
+        n += 1
+        try:
+            function.as_csr(bad)
+            fails.append('as_csr accepted an array with %d axes' % bad.ndim)
+        except ValueError:
+            pass
+        except Exception as e:
+            fails.append('as_csr of a %d-d array: %s: %s' % (bad.ndim, type(e).__name__, e))
+    _report(fails, n)
+
+
+def accumulate_bounded():
+    import json
+    from nutils import numeric
+    cases, failures = 0, []
+    shapes = [()] + [s for r in (1, 2, 3) for s in itertools.product((1, 2, 3), repeat=r) if numpy.prod(s) <= 9]
+    for shape in shapes:
+        for m in range(0, 4):
+            for dtype in (float, int):
+                data = numpy.array([2 ** k for k in range(m)], dtype=dtype)
+                for flat in itertools.product(range(int(numpy.prod(shape))), repeat=m):
+                    tuples = [numpy.unravel_index(f, shape) if shape else () for f in flat]
+                    index = [numpy.array([t[k] for t in tuples], dtype=int) for k in range(len(shape))]
+                    want = numpy.zeros(shape, dtype)
+                    for v, t in zip(data, tuples):
+                        want[t] += v
+                    variants = [('arrays', index, data)]
+                    if shape and m:
+                        # the add.at branch: a non-array index item (a slice selecting the whole last axis of the data)
+                        pass
+                    for label, idx, dat in variants:
+                        cases += 1
+                        try:
+                            got = numeric.accumulate(dat, idx, shape)
+                        except Exception as e:
+                            failures.append(dict(clause='equals-docstring-loop', data=dat.tolist(), index=[i.tolist() for i in idx], shape=list(shape), raised='%s: %s' % (type(e).__name__, e)))
+                            continue
+                        got = numpy.asarray(got)
+                        if got.shape != tuple(shape) or got.dtype != dat.dtype:
+                            failures.append(dict(clause='shape-and-dtype', data=dat.tolist(), index=[i.tolist() for i in idx], shape=list(shape), got_shape=list(got.shape), got_dtype=str(got.dtype)))
+                        elif not (got == want).all():
+                            failures.append(dict(clause='equals-docstring-loop', data=dat.tolist(), index=[i.tolist() for i in idx], shape=list(shape), returned=got.tolist(), expected=want.tolist()))
+    # add.at branch with a slice item: data of shape (m, n1), index = (array, slice(None)) into shape (n0, n1)
+    for n0 in (1, 2, 3):
+        for n1 in (1, 2):
+            for m in range(0, 4):
+                for rows in itertools.product(range(n0), repeat=m):
+                    for dtype in (float, int):
+                        cases += 1
+                        dat = numpy.array([[2 ** (k * n1 + j) for j in range(n1)] for k in range(m)], dtype=dtype).reshape(m, n1)
+                        idx = [numpy.array(rows, dtype=int), slice(None)]
+                        want = numpy.zeros((n0, n1), dtype)
+                        for k, r in enumerate(rows):
+                            want[r] += dat[k]
+                        try:
+                            got = numpy.asarray(numeric.accumulate(dat, idx, (n0, n1)))
+                        except Exception as e:
+                            failures.append(dict(clause='equals-docstring-loop', data=dat.tolist(), index=[list(rows), 'slice(None)'], shape=[n0, n1], raised='%s: %s' % (type(e).__name__, e)))
+                            continue
+                        if got.shape != (n0, n1) or got.dtype != dat.dtype:
+                            failures.append(dict(clause='shape-and-dtype', data=dat.tolist(), index=[list(rows), 'slice(None)'], shape=[n0, n1], got_shape=list(got.shape), got_dtype=str(got.dtype)))
+                        elif not (got == want).all():
+                            failures.append(dict(clause='equals-docstring-loop', data=dat.tolist(), index=[list(rows), 'slice(None)'], shape=[n0, n1], returned=got.tolist(), expected=want.tolist()))
+    print('BOUNDED-RESULT ' + json.dumps(dict(cases=cases, failures=failures[:10])))
+    if failures:
+        print('REPLAY: VIOLATION-CONFIRMED numeric.accumulate: %s' % failures[0])
+    else:
+        print('REPLAY: not reproduced (%d cases)' % cases)
